@@ -3,6 +3,8 @@ package hist
 import (
 	"fmt"
 	"math/rand"
+	"os"
+	"strings"
 	"sort"
 	"testing"
 	"testing/synctest"
@@ -35,6 +37,12 @@ func scripted(t *testing.T, r *ev.Run, name string, oracles int, E, R, P time.Du
 		}
 		synctest.Wait()
 		h.w.Close()
+		if dbg := os.Getenv("VERIF_DEBUG_SCENARIO"); dbg != "" && strings.Contains(name, dbg) {
+			fmt.Println("DEBUG scenario", name)
+			for _, st := range h.steps {
+				fmt.Println("   ", st)
+			}
+		}
 		r.Eval(1)
 		r.Count("matrix_scenarios", 1)
 		if len(h.recs) > 1 {
@@ -141,6 +149,32 @@ func matrixC04(t *testing.T, r *ev.Run) {
 	}
 }
 
+// rotateThenDecryptOld: the SK expires while a younger IK is still valid; the long-lived session rotates on its next
+// encrypt; it then decrypts a record written under the old IK and encrypts again right away. The old IK (under
+// the expired SK) must not come back for new records.
+func rotateThenDecryptOld(t *testing.T, r *ev.Run) {
+	E, R, P := time.Hour, 5*time.Minute, time.Minute
+	for _, nc := range matrixCfgs() {
+		scripted(t, r, "c04/"+nc.name+"/rotate-then-decrypt-old-then-encrypt", OC04|OC01, E, R, P, func(h *hist) {
+			time.Sleep(17 * time.Second)
+			fa := h.factWith(nc.cfg)
+			seed := h.openSess(fa, "seed")
+			h.encrypt(seed)
+			time.Sleep(E / 2)
+			s := h.openSess(fa, "P")
+			h.encrypt(s) // IK1 under SK1
+			old := h.recs[len(h.recs)-1]
+			time.Sleep(E/2 + 2*R) // SK1 expired two intervals ago, IK1 valid
+			h.encrypt(s)          // rotates: new SK, new IK
+			for i := 0; i < 3; i++ {
+				h.decrypt(s, old, "same-factory")
+				h.encrypt(s)
+				time.Sleep(R / 3)
+			}
+		})
+	}
+}
+
 // f11C04 reproduces the recorded finding F11 for C04 deterministically: the SK expires while a younger IK is still
 // valid; a cold cache decrypts a record of the partition (which seeds its "latest" alias without validating the
 // parent) and then encrypts.
@@ -171,8 +205,10 @@ func matrixC05(t *testing.T, r *ev.Run) {
 	for _, nc := range matrixCfgs() {
 		for _, which := range []string{"latest-IK", "latest-SK", "older-IK", "older-SK"} {
 			for _, off := range offsets {
-				for _, otherRotates := range []bool{false, true} {
-					name := fmt.Sprintf("c05/%s/%s/offset=%s/other=%v", nc.name, which, off, otherRotates)
+				for _, variant := range []int{0, 1, 2} {
+					otherRotates := variant == 1
+					faulty := variant == 2 // a transient read error hits the periodic re-check once per interval
+					name := fmt.Sprintf("c05/%s/%s/offset=%s/other=%v/faulty=%v", nc.name, which, off, otherRotates, faulty)
 					scripted(t, r, name, OC05|OC01, E, R, P, func(h *hist) {
 						time.Sleep(23 * time.Second)
 						fa := h.factWith(nc.cfg)
@@ -214,7 +250,21 @@ func matrixC05(t *testing.T, r *ev.Run) {
 						}
 						for i := 0; i < 16; i++ {
 							time.Sleep(R / 4)
+							// the first re-check of the cached key after the flip meets a transient read error
+							// (armed on every encrypt until one read actually happens and fails)
+							from := h.w.MS.N()
+							if faulty {
+								h.w.MS.ReadFaultIn = 1
+								h.p.FaultPct = -1 // faults are placed by the scenario
+							}
 							h.encrypt(s)
+							h.w.MS.ReadFaultIn = 0
+							for _, c := range h.w.MS.CallsFrom(from) {
+								if c.Fault != "" {
+									faulty = false
+									r.Count("matrix_recheck_faults_fired", 1)
+								}
+							}
 							if i%5 == 0 {
 								h.decrypt(s, first, "same-factory")
 								h.decrypt(s, cur, "same-factory")
